@@ -18,7 +18,7 @@ rundemo() { # $1 = tree
       cp "$DEMO" $dir/zz_demo_seed_test.go
       (cd $dir && timeout 600 go1.26 test -count=1 -run 'DemoSeed' . >/tmp/vpd-se-$NAME.demo.log 2>&1); rc=$?
       rm -f $dir/zz_demo_seed_test.go; return $rc;;
-    *.sh) (cd $1 && WT=$1 timeout 600 bash "$DEMO" >/tmp/vpd-se-$NAME.demo.log 2>&1); return $?;;
+    *.sh) mkdir -p $1/seed; cp "$DEMO" $1/seed/$(basename "$DEMO0"); (cd $1 && WT=$1 timeout 900 bash seed/$(basename "$DEMO0") >/tmp/vpd-se-$NAME.demo.log 2>&1); rc=$?; rm -rf $1/seed; return $rc;;
     *.go) (cd $1 && mkdir -p zzdemo && cp "$DEMO" zzdemo/main.go && timeout 600 go1.26 run ./zzdemo >/tmp/vpd-se-$NAME.demo.log 2>&1); rc=$?; rm -rf $1/zzdemo; return $rc;;
   esac
 }
